@@ -39,9 +39,15 @@ pub struct Stats {
     pub tlb_checks: u64,
     /// translate_page probe cells: [size][class][code]
     pub tp_cells: [[[u64; 8]; 5]; 3],
+    /// rolling hash of the full event log (outcomes, allocator events, resolved MMU faults, trapped
+    /// instructions with operands): two executions of the same seed must agree on it
+    pub evhash: u64,
 }
 
 impl Stats {
+    pub fn fold(&mut self, x: u64) {
+        self.evhash = (self.evhash ^ x).wrapping_mul(0x100_0000_01b3).rotate_left(23) ^ 0x9E37_79B9;
+    }
     pub fn probe(&mut self, name: &str) {
         *self.probes.entry(name.to_string()).or_insert(0) += 1;
     }
@@ -489,6 +495,34 @@ impl<'a> Exec<'a> {
         self.stats.distinct.insert(key);
     }
 
+    fn fold_events(&mut self, out: &Outcome, log: &[AllocEv]) {
+        let w = world();
+        let st = &mut *self.stats;
+        st.fold(out.code as u64);
+        st.fold(out.frame.unwrap_or(1));
+        st.fold(out.token.unwrap_or(2));
+        for e in log {
+            match e {
+                AllocEv::Alloc(k, f) => st.fold(*k as u64 ^ f.unwrap_or(3)),
+                AllocEv::Dealloc(f) => st.fold(!*f),
+            }
+        }
+        for f in &w.mmu_log {
+            st.fold(f.va);
+            st.fold(f.pa.unwrap_or(4));
+        }
+        for e in w.cpu.trace.iter().chain(out.flush_trace.iter()) {
+            match e {
+                Ev::ReadCr { cr, val } | Ev::WriteCr { cr, val } => st.fold(*cr as u64 ^ *val),
+                Ev::Invlpg { addr } => st.fold(*addr),
+                _ => st.fold(7),
+            }
+        }
+        for (f, ok) in &self.rs.ftp_log {
+            st.fold(*f ^ *ok as u64);
+        }
+    }
+
     /// One call of the crate under one allocator-failure mask, with all oracles.
     fn attempt(&mut self, i: usize, step: &Step, mask: u8) -> Result<(), Violation> {
         let w = world();
@@ -513,6 +547,7 @@ impl<'a> Exec<'a> {
         let w = world();
         let log = self.rs.alloc.log.clone();
         let name = step.opname();
+        self.fold_events(&out, &log);
 
         if let Some(msg) = &out.panic {
             return Err(viol(&["C01", "C02"], "panic", i, format!("{name} panicked: {msg}")));
